@@ -228,6 +228,20 @@ def stepLine (line : String) : String :=
       let out := RK.splitStep ops (polyRhs n terms) mm t y h (T.drift.map (tabRat T.K)) (T.kick.map (tabRat T.K))
       s!"{showRats out.1} {showRat out.2}"
     | _, _, _, _, _, _, _ => bad
+  -- nlfront <path m|h> <tolEps> <m: succ:noimp:res> <h: resBelow:stepBelow:trustBelow:dxn:res> <n: succ:res> <desiredTol>
+  | ["nlfront", path, tolEps, m, h, n, dtol] =>
+    let b (s : String) : Bool := s == "1"
+    match parseFloatBits? tolEps, m.splitOn ":", h.splitOn ":", n.splitOn ":", parseFloatBits? dtol with
+    | some te, [ms, mn, mr], [h1, h2, h3, hd, hr], [ns, nr], some dt =>
+      match parseFloatBits? mr, parseFloatBits? hd, parseFloatBits? hr, parseFloatBits? nr with
+      | some mr, some hd, some hr, some nr =>
+        let o := Solvers.front te (if path == "m" then .minpack else .hybrj)
+          { success := b ms, noImprovement := b mn, resNorm := mr }
+          { resBelowTol := b h1, stepBelowXtol := b h2, trustBelowXtol := b h3, dxn := hd, resNorm := hr }
+          { success := b ns, resNorm := nr }
+        s!"{o.success} {showFloatBits o.prec} {o.via} {Solvers.consumerAccepts o dt}"
+      | _, _, _, _ => bad
+    | _, _, _, _, _ => bad
   -- jacops <rhsHasJac 0/1> <ops j<t>,h<tag>,u,o>  : Jacobian dispatch machine, answers in order
   | ["jacops", r, ops] =>
     let parse (t : String) : Option Jac.Op :=
